@@ -279,6 +279,57 @@ example : MembersFit Flatland.Generated.C04.pyTables (.int 2020) (.int 2) (.int 
   simp only [List.mem_cons, List.mem_nil_iff, or_false] at hv
   rcases hv with rfl | rfl | rfl <;> (cases hi; exact intFits_small _ pyTables_ok _ (by decide))
 
+/-! ### the empty JoinedString, and the second class of counter-examples -/
+
+theorem splitWith_nil (T : Tables) (sp : Splitter) (sep : Str) : splitWith T sp sep [] = [[]] := by
+  cases sp <;> rfl
+
+/-- **joined_reset**, empty JoinedString: its value `''` set again gives `''` — always under
+    prune_empty, and without it whenever the member type gives `''` the text `''` -/
+theorem joined_reset_empty (E : Env) (c : JoinedCfg)
+    (h : c.prune = true ∨ ∃ r, setScalar E c.member (.str []) = .ok r ∧ r.st.u = []) :
+    ∃ s' flag, joinedSet E c [] (.leaf (.str (joinedValue c []))) = .ok (s', some flag) ∧
+      joinedValue c s' = joinedValue c [] := by
+  have hv : joinedValue c [] = [] := rfl
+  rw [hv]
+  unfold joinedSet JoinedCfg.schema
+  simp only [Flatland.C04.setElem, splitWith_nil]
+  rcases h with hp | ⟨r, hr, hu⟩
+  · exact ⟨[], true, by simp [hp, pyTruthy, joinedOfElem, Flatland.C04.indexed], rfl⟩
+  · cases hp : c.prune with
+    | true => exact ⟨[], true, by simp [pyTruthy, joinedOfElem, Flatland.C04.indexed], rfl⟩
+    | false =>
+      refine ⟨[r.st], r.flag, by simp [hr, joinedOfElem], ?_⟩
+      simp [joinedValue, joinStr, hu]
+
+/-- **joined_reset** for the common configuration, every state including the empty one -/
+theorem joined_reset_single_char_all (E : Env) (c : JoinedCfg) (s : JoinedState) (ch : Char)
+    (hsep : c.sep = [ch]) (hsp : c.sp = .static) (h : ∀ st ∈ s, ch ∉ st.u)
+    (hprune : NoEmptyTextUnderPrune c s) (hset : Settled E c.member s)
+    (hempty : c.prune = true ∨ ∃ r, setScalar E c.member (.str []) = .ok r ∧ r.st.u = []) :
+    ∃ s' flag, joinedSet E c s (.leaf (.str (joinedValue c s))) = .ok (s', some flag) ∧
+      joinedValue c s' = joinedValue c s := by
+  cases s with
+  | nil => exact joined_reset_empty E c hempty
+  | cons m rest => exact joined_reset_single_char E c _ ch hsep hsp (by simp) h hprune hset
+
+/-- KF-C18-c: `JoinedString(['a , b'], prune_empty=False)` has value `'a , b'`; setting that gives two
+    members and the value `'a,b'` -/
+theorem C18_joined_resplit_witness :
+    let c : JoinedCfg := ⟨[','], .static, false, .string true⟩
+    let s : JoinedState := [⟨.str "a , b".toList, .str "a , b".toList, "a , b".toList⟩]
+    Settled plainEnv c.member s ∧ NoEmptyTextUnderPrune c s ∧
+    ∃ s', joinedSet plainEnv c s (.leaf (.str (joinedValue c s))) = .ok (s', some true) ∧
+      joinedValue c s' = "a,b".toList ∧ joinedValue c s = "a , b".toList := by
+  intro c s
+  refine ⟨?_, ?_, ?_⟩
+  · intro st hst
+    simp only [s, List.mem_cons, List.mem_nil_iff, or_false] at hst
+    subst hst
+    exact string_settled plainEnv true _ (fun _ => by decide)
+  · intro h; cases h
+  · exact ⟨_, by rfl, by decide, by decide⟩
+
 /-! ### JoinedString.value, MultiValue.u/value -/
 
 /-- **joined_value** — in every state the value (and `.u`) is the separator-join of the members' texts -/
@@ -340,7 +391,9 @@ theorem step_read (E : Env) (k : Kind) (w : Writable) (s s' : RefState) (op : Re
         · simp only [Except.ok.injEq, Prod.mk.injEq] at h; exact Or.inl h.2.2.symm
       · simp at h
 
-/-- **ref_proxy** (full since fix b196482) — along every history of target sets, container sets
+/-- **ref_proxy** (full since fix b196482; holds by construction of the model, where reading a Ref
+    *is* reading the element now at the target path — whether the code does that is what the
+    correspondence and the oracle check) — along every history of target sets, container sets
     (which replace the target element), Ref reads and Ref sets, in every writable mode, a Ref's
     value and text are those of the element at the target path. -/
 theorem ref_proxy (E : Env) (k : Kind) (w : Writable) (s : RefState) (ops : List RefOp) :
